@@ -33,10 +33,11 @@ pub fn can_be_used(lhs: &Type) -> bool {
     lhs.matches(&ACCEPTED_TYPE)
 }
 
-pub(crate) fn exec(var: Variable, interpreter: &mut Interpreter) -> ExecResult {
+pub(crate) fn exec(var: Variable, _interpreter: &mut Interpreter) -> ExecResult {
     let iter = var.into_function().unwrap();
     let mut vec = Vec::new();
-    while let Variable::Tuple(tuple) = iter.exec(interpreter)? {
+    // the iterator is a function: it runs in its own scope, not in the caller's
+    while let Variable::Tuple(tuple) = iter.exec_with_args(&[])? {
         if tuple[0] == Variable::Bool(false) {
             break;
         };
